@@ -21,6 +21,9 @@ def main(tier, seed):
             jobs.append(("props.flow", "run_scenario", (n, dict(extra, policy="fifo", k=k, oracles=("c03",), targets="acts", part=(i, parts),
                                                                  max_paths=600 if tier == "quick" else 20000, seed=seed), "C03")))
         jobs.append(("props.flow", "run_scenario", (n, dict(extra, policy="lifo", k=1, oracles=("c03",), targets="all", max_paths=400, seed=seed), "C03")))
+    # histories with fired timeout rules (symbolic clock): the handler steps started beneath a task are part of its hierarchy
+    for rules, on_step in ((["1s"], True), (["1s"], False), (["1s", "1m"], True)):
+        jobs.append(("props.timeouts", "run_rules", (rules, on_step, dict(policy="fifo", k=2 if tier == "quick" else 3, oracles=("c03",), max_paths=300 if tier == "quick" else 3000), "C03")))
     c.run_jobs(jobs)
     return c.finish(
         rule="one path = scenario x valuation class of the symbolic inputs x (target task, symbolic action kind) per script step x schedule",
